@@ -85,18 +85,20 @@ func (c *hbConn) recvLoop() {
 
 		if bytes.Equal(c.hb, buffer[:n]) {
 			atomic.AddUint32(&c.waiting, 1)
-			continue
-		}
-
-		if err != nil {
-			c.Close()
-			return
+			if err == nil {
+				continue
+			}
+			n = 0
 		}
 
 		timer := time.NewTimer(c.timeout)
 		select {
 		case c.recvCh <- errBytes{buffer[:n], err}:
 			timer.Stop()
+			if err != nil {
+				c.Close()
+				return
+			}
 			continue
 		case <-timer.C:
 			c.Close()
@@ -116,22 +118,31 @@ func (c *hbConn) Write(b []byte) (n int, err error) {
 }
 
 func (c *hbConn) Read(b []byte) (int, error) {
+	// data (and the error) that arrived before the close is handed out first
+	select {
+	case readBytes := <-c.recvCh:
+		return c.deliver(b, readBytes)
+	default:
+	}
 	select {
 	case <-c.closed:
+		select {
+		case readBytes := <-c.recvCh:
+			return c.deliver(b, readBytes)
+		default:
+		}
 		return 0, net.ErrClosed
 	case readBytes := <-c.recvCh:
-		if readBytes.err != nil {
-			return 0, readBytes.err
-		}
-
-		if len(b) < len(readBytes.b) {
-			return 0, ErrInsufficientBuffer
-		}
-
-		n := copy(b, readBytes.b)
-
-		return n, nil
+		return c.deliver(b, readBytes)
 	}
+}
+
+func (c *hbConn) deliver(b []byte, readBytes errBytes) (int, error) {
+	if len(b) < len(readBytes.b) {
+		return 0, ErrInsufficientBuffer
+	}
+	n := copy(b, readBytes.b)
+	return n, readBytes.err
 }
 
 func (c *hbConn) BufferedAmount() uint64 {
